@@ -88,3 +88,41 @@ Definition mismatches_all (cases : list case) (i : N) : list (N * list N) :=
 (* number of cases inside D (coverage figure) *)
 Definition count_in_D (cases : list case) : N :=
   N.of_nat (length (filter (fun c => D_b (c_env c) (c_htlc c)) cases)).
+
+(* ---- link selection of Switch.handlePacketAdd (tie of C09_switch_picks_only_ok) ---- *)
+Definition wire_of_code (z : Z) : wire :=
+  if z =? 0 then WOk else if z =? 1 then WFeeInsufficient
+  else if z =? 2 then WAmountBelowMinimum else if z =? 3 then WTemporaryChannelFailure
+  else if z =? 4 then WExpiryTooSoon else if z =? 5 then WExpiryTooFar
+  else if z =? 6 then WIncorrectCltvExpiry else WTemporaryNodeFailure.
+
+Record selcase := S {
+  s_elig : list bool;       (* EligibleToForward of each candidate link *)
+  s_checks : list Z;        (* CheckHtlcForward result of each link (wire enum) *)
+  s_req : Z;                (* index of the requested outgoing channel *)
+  s_chosen : Z;             (* observed: link that got the add, -1 = failed back *)
+  s_reply : Z               (* observed: failure sent back (20 = UnknownNextPeer) *)
+}.
+
+Definition sel_ok (c : selcase) : bool :=
+  let links := seq 0 (length (s_elig c)) in
+  let eligible := fun i => nth i (s_elig c) false in
+  let check := fun i => mkRes (wire_of_code (nth i (s_checks c) 7)) DNone 0 in
+  let dests := destinations nat eligible check links in
+  if s_chosen c <? 0 then
+    (* failed back: nobody admits, and the failure is the requested link's *)
+    match dests with
+    | [] =>
+      let r := Z.to_nat (s_req c) in
+      s_reply c =? (if eligible r then nth r (s_checks c) 7 else 20)
+    | _ => false
+    end
+  else existsb (Nat.eqb (Z.to_nat (s_chosen c))) dests.
+
+Fixpoint sel_mismatches (cases : list selcase) (i : N) : list (N * list N) :=
+  match cases with
+  | [] => []
+  | c :: r =>
+    if sel_ok c then sel_mismatches r (i + 1)
+    else (i, [98%N]) :: sel_mismatches r (i + 1)
+  end.
